@@ -335,11 +335,28 @@ def g_level(rng, depth, nf, allow_flex=True, static=False, item=False, tail=None
     return fields
 
 
+def partial_tables(rng, fields):
+    """an optional buffer whose length table lists only the cases in which the field EXISTS (`type | [body(TABLE[type])]`: TABLE has
+    no entry for the types without a body) - the way such tables are written by hand; the length callback of an absent field must
+    never be evaluated (it would raise KeyError)"""
+    out = []
+    for f in fields:
+        g = list(f)
+        if g[0] == "FEnv":
+            g[5] = partial_tables(rng, g[5])
+        elif g[0] == "FSeq":
+            g[4] = partial_tables(rng, g[4])
+        elif g[0] == "FBuf" and g[3][0] == "PTab" and g[2][0] in ("LFix", "LTab") and any(b for _, b in g[3][2]) and rng.chance(1, 2):
+            g[2] = ("LTab", g[3][1], [(kv, rng.range(1, 4)) for kv, b in g[3][2] if b])
+        out.append(tuple(g))
+    return out
+
+
 def gen_wf(rng):
     nf = rng.range(1, 6)
     if nf >= 2 and rng.chance(1, 12):
-        return g_level(rng, 0, nf - 2, tail="ldl")
-    return g_level(rng, 0, nf)
+        return partial_tables(rng, g_level(rng, 0, nf - 2, tail="ldl"))
+    return partial_tables(rng, g_level(rng, 0, nf))
 
 
 # ------------------------------------------------------------------ definition mutations (NOT well-formed stream)
@@ -396,6 +413,27 @@ ZERO_ITEMS = [
     lambda rng: [("FBits", REST, A, False, [("BitF", None, 0, None)]), ("FBuf", 2, ("LDataLen", 3, 2, 0), A)],
     # all-optional item: presence keyed on a name the (empty) item dict never holds -> KeyError, wrapped
     lambda rng: [("FBuf", 2, ("LFix", 1), ("PTab", 140, [(0, True), (1, False)])), ("FSpare", ("LFix", 1), ("PTab", 140, [(0, False), (1, True)]), 0)],
+]
+
+# hand-shaped well-formed definitions: optional fields whose length callback is defined only where the field exists
+def _u8(nm, p=None):
+    return ("FUint", nm, ("LFix", 1), p or A, False, False, 0, 1)
+
+
+SHAPED = [
+    # type | [body(TABLE[type])] - TABLE has no entry for the types without a body
+    lambda rng: [_u8(0), ("FBuf", 1, ("LTab", 0, [(1, 2), (2, 3)]), ("PTab", 0, [(0, False), (1, True), (2, True)]))],
+    # flag | [len] | [data(len)] - 'len' does not exist when the flag is 0
+    lambda rng: [_u8(0), _u8(1, ("PTab", 0, [(0, False), (1, True)])),
+                 ("FBuf", 2, ("LTab", 1, [(1, 1), (2, 2), (3, 3)]), ("PTab", 0, [(0, False), (1, True)]))],
+    # the same as the item of a sequence
+    lambda rng: [_u8(0), ("FSeq", rng.choice([3, 4, 5]), REST, A,
+                          [_u8(0), ("FBuf", 1, ("LTab", 0, [(1, 2), (2, 1)]), ("PTab", 0, [(0, False), (1, True), (2, True)]))])],
+    lambda rng: [("FSeq", rng.choice([3, 4, 5]), REST, A,
+                  [_u8(0), _u8(1, ("PTab", 0, [(0, False), (1, True)])),
+                   ("FBuf", 2, ("LTab", 1, [(1, 1), (2, 2)]), ("PTab", 0, [(0, False), (1, True)]))])],
+    # an optional nested envelope with a table length
+    lambda rng: [_u8(0), ("FEnv", 2, ("LTab", 0, [(1, 2), (2, 3)]), ("PTab", 0, [(0, False), (1, True), (2, True)]), True, [("FBuf", 0, REST, A)])],
 ]
 
 MUTS = ("dup-name", "flex-middle", "bad-key", "mult0", "fixed-range", "spare-rest", "env-loose",
@@ -1092,7 +1130,7 @@ def run(ctx):
             break
         cases = []
         for _ in range(min(chunk, n_defs - done)):
-            fields = gen_wf(rng)
+            fields = gen_wf(rng) if not rng.chance(1, 12) else [tuple(f) for f in rng.choice(SHAPED)(rng)]
             D = Def(fields, True, None)
             if first:
                 # fixed witness of the recorded finding c16-varlen-buf-length-not-enforced, always the first case
